@@ -148,7 +148,8 @@ def _none_test(e):
 
 
 class Walker:
-    def __init__(self, A, fn, sc, atom_of, max_leaves=256, max_steps=4000, follow_exc=False, stop_at_for=False):
+    def __init__(self, A, fn, sc, atom_of, max_leaves=256, max_steps=4000, follow_exc=False, stop_at_for=False, through_with=False):
+        self.through_with = through_with
         self.follow_exc = follow_exc
         self.stop_at_for = stop_at_for    # a `for` head ends the region (leaf kind "stop") instead of being undecidable
         self.A, self.fn, self.sc = A, fn, sc
@@ -277,6 +278,20 @@ class Walker:
                     if not nxt:
                         raise AnalysisError(f"{self.fn.qualname}: constant condition at line {n.lineno} has no {v} branch (UNDECIDED)")
                     n = nxt[0]
+                    continue
+                if n.kind == "with" and self.through_with and isinstance(n.ast, (ast.With,)):
+                    # `with E as v:` - E is evaluated (an effect), v is bound to an opaque value, the body follows; leaving the body is not modelled as
+                    # an event (the context managers the analysed code uses are files, which do not swallow exceptions)
+                    env, bind = dict(env), dict(bind)
+                    for it_ in n.ast.items:
+                        eff = eff + [("with", n.ast, subst(it_.context_expr, env))]
+                        if isinstance(it_.optional_vars, ast.Name):
+                            env.pop(it_.optional_vars.id, None)
+                            bind[it_.optional_vars.id] = subst(it_.context_expr, env)
+                    succ = self._normal_succ(n)
+                    if len(succ) != 1:
+                        raise AnalysisError(f"{self.fn.qualname}: `with` at line {n.lineno} has {len(succ)} normal successors (UNDECIDED)")
+                    n = succ[0]
                     continue
                 if n.kind in ("for", "with", "dispatch"):
                     raise AnalysisError(f"{self.fn.qualname}: `{n.kind}` at line {n.lineno} inside a decision region (UNDECIDED)")
